@@ -7,14 +7,15 @@ from common import *
 ID = 'C18'
 COQ_FILES = ['Base/Mat.v', 'Base/SumQ.v', 'Base/ListX.v', 'Model/Walks.v', 'Model/Linear.v', 'Proofs/Walks.v', 'Proofs/WalksBound.v',
              'Proofs/Linear.v', 'Proofs/LinearSpectral.v', 'Proofs/LinearFull.v', 'Proofs/LinearMarkov.v', 'Proofs/LinearDim.v',
-             'Proofs/LinearExist.v', 'Proofs/LinearSelect.v', 'Proofs/LinearRun.v', 'Properties/C18.v']
+             'Proofs/LinearExist.v', 'Proofs/LinearSelect.v', 'Proofs/LinearRun.v', 'Proofs/LinearReal.v', 'Properties/C18.v']
 THEOREMS = ['C18_findwalks_power', 'C18_walks_enumeration', 'C18_findwalks_rejects', 'C18_findwalks_exact_range',
             'C18_transP_stochastic', 'C18_mfpt_equation', 'C18_stationary_positive_unique', 'C18_mfpt_connected',
             'C18_mfpt_select_spec', 'C18_diffusion_eff_def', 'C18_pagerank_equation', 'C18_pagerank_positive',
             'C18_uniform_prior', 'C18_pagerank_exists_unique', 'C18_pagerank_any', 'C18_prior_normalised',
             'C18_run_pagerank_sound', 'C18_run_mfpt_sound',
             'C18_subgraph_poly', 'C18_subgraph_from_decomposition',
-            'C18_subgraph_truncated_exp_partial', 'C18_eigvec_abs_ok_partial']
+            'C18_subgraph_truncated_exp', 'C18_subgraph_expm', 'C18_expm_defined', 'C18_subgraph_expm_rational',
+            'C18_eigvec_abs_ok_partial']
 RULE = ('families: cycles C3..C9, paths, stars, complete graphs, complete bipartite K_{a,b}, circulant / cube / Petersen regular '
         'graphs, disjoint copies of those (repeated eigenvalues; spectral measures and findwalks only), random connected '
         'undirected graphs with integer weights 1..4, random strongly connected digraphs (directed cycle + chords, weights '
@@ -42,8 +43,10 @@ ASSUMES = ['LAPACK results (eig, inv, solve, eigh) enter the theorems only throu
            'findwalks: the model counts in Z, the code in a float64 array; they coincide while twalk < 2^53 '
            '(C18_findwalks_exact_range gives the sufficient condition n^2 (1 + D + .. + D^(n-1)) < 2^53, D = largest in-degree); '
            'beyond that the code returns rounded counts (known finding findwalks:exact53, K_15 / K_16 are the first complete graphs)',
-           'C18_eigvec_abs_ok_partial assumes the variational (Rayleigh) characterisation of the largest eigenvalue; '
-           'C18_subgraph_*: the limit of the truncated exponential series is not proved (full statements are Definitions in Properties/C18.v)',
+           'C18_eigvec_abs_ok_partial assumes the variational (Rayleigh) characterisation of the largest eigenvalue '
+           '(full statement = Definition C18_eigvec_full_statement in Properties/C18.v); subgraph centrality is FULL: C18_subgraph_expm '
+           '(the diagonal of the matrix exponential, defined as the entrywise sum of the series, equals sum_k V_ik^2 exp(lam_k) for all real '
+           'A, V, lam meeting eigh\'s equations) - eigh, np.exp and binary64 remain outside the model',
            'C18_diffusion_eff_def is a definitional unfolding of the two lines of the code (no assurance beyond the correspondence run)',
            'the executable model of mfpt / pagerank is a SECOND ORACLE computed from the input alone by exact elimination, not a '
            'step-by-step model of LAPACK; only findwalks, the pagerank set-up (deg, deg==0, D^-1, B, b, prior, normalisation) and the '
@@ -53,7 +56,11 @@ ASSUMES = ['LAPACK results (eig, inv, solve, eigh) enter the theorems only throu
            'recorded as a robustness note, only the selection branch is compared with the model',
            'findwalks on a 1-node graph raises IndexError (Wq has no slice for length 1); the model returns None there; not counted as a violation']
 TRUSTED = ['floating-point residual checks with tolerance 1e-8 * scale on the implementation output (numerical evidence, not proof)',
-           'scipy.linalg.expm and numpy.linalg.matrix_power / solve / eig (re-run by the harness to obtain aux) as independent numerical oracles']
+           'scipy.linalg.expm and numpy.linalg.matrix_power / solve / eig (re-run by the harness to obtain aux) as independent numerical oracles',
+           'C18_subgraph_expm, C18_expm_defined, C18_subgraph_expm_rational and the second conjunct of C18_subgraph_truncated_exp are statements over '
+           'Coq\'s real numbers (Proofs/LinearReal.v, standard library Reals only) and depend on its axioms '
+           'ClassicalDedekindReals.sig_forall_dec, ClassicalDedekindReals.sig_not_dec, '
+           'FunctionalExtensionality.functional_extensionality_dep; every other C18 theorem is closed under the global context']
 TOL = 1e-8
 
 
